@@ -47,6 +47,11 @@ def step (s : St) (line : String) : St × String :=
   | ["get", k] => let (s', o) := get s k.toNat!; (s', outStr o ++ cacheStr s')
   | ["adv", d] => let s' := advance s d.toNat!; (s', "ok" ++ cacheStr s')
   | ["gc"] => let s' := gc s; (s', "ok" ++ cacheStr s')
+  | ["gcclose"] =>
+    -- a second manager's periodic sweep on the same datastore (interval 3), held inside its query for one more tick
+    -- while Close waits for it: Close cancels the sweep, which gives up as soon as its query returns — as far as the
+    -- store goes, only time passes
+    let s' := advance s 4; (s', "ok" ++ cacheStr s')
   | ["restart"] => let s' := restart s; (s', "ok" ++ cacheStr s')
   | ["close"] => let s' := close s; (s', "ok" ++ cacheStr s')
   | ["disk"] => (s, diskStr s)
